@@ -140,6 +140,9 @@ class Normalizer:
                 return ("proj", args[0], "std::prelude::v1::Err", 0)
             if l in ("err",) and len(args) == 1 and "Result" in path:
                 return ("ctor?", "err-of", args[0]) if False else t
+            if l == "unwrap_or" and len(args) == 2 and ("Option" in path or "Result" in path):
+                which = "some" if "Option" in path else "ok"
+                return self.rewrite(("ite", self.rewrite(M(args[0], which)), self.proj(args[0], SOME if which == "some" else OK, 0), args[1]))
             if l == "is_empty" and len(args) == 1 and path != EMPTY and any(c in path for c in ("slice", "Vec", "vec::", "str", "String", "collections", "HashMap", "HashSet", "BTree", "[T]")):
                 return ("call", EMPTY, (strip_adapters(args[0]),))
             if l in ("get", "get_mut") and len(args) == 2 and is_map_path(path):
@@ -306,6 +309,14 @@ class Normalizer:
                 e = ("call", EMPTY, (strip_adapters(a[2][0]),))
             if e is not None:
                 return e
+        if k == "bin" and t[1] in ("+", "-", "*") and t[2][0] == "lit" and t[3][0] == "lit" and type(t[2][1]).__name__ == "Int" and type(t[3][1]).__name__ == "Int":
+            a, b = int(t[2][1]), int(t[3][1])
+            v = a + b if t[1] == "+" else a - b if t[1] == "-" else a * b
+            if v >= 0:
+                return ("lit", _int(v))
+        if k == "bin" and t[1] in ("+", "-") and t[3][0] == "lit" and t[2][0] == "ite":
+            # (if c { a } else { b }) + k  ==  if c { a + k } else { b + k }
+            return self.rewrite(("ite", t[2][1], self.rewrite(("bin", t[1], t[2][2], t[3])), self.rewrite(("bin", t[1], t[2][3], t[3]))))
         if k == "bin" and t[1] in ("==", "!="):
             a, b = t[2], t[3]
             if repr(a) > repr(b):
@@ -367,6 +378,8 @@ class Normalizer:
         return x, which
 
     def proj(self, base, variant, idx=0):
+        if last(variant) in ("Ok", "Some", "Err", "None"):
+            variant = "std::prelude::v1::" + last(variant)          # one name for the prelude variants, however they were reached
         if idx == 0 and last(variant) in ("Ok", "Some"):
             b2, w2 = self.through(base, "ok" if last(variant) == "Ok" else "some")
             if b2 is not base:
